@@ -78,6 +78,14 @@ CLAIMED = {
         "histories of parse/validate/graph/query calls on one Language followed by a probe compared with a fresh language and the model.",
         technique="Lean 4 proof (frame and equivariance lemmas by induction over the mutual unifier) + model/implementation correspondence over histories",
         ref="6/C16"),
+ "C18": dict(text="The general statement is false of the code (known findings D14, D20, D21) and of the model (kernel-checked C18_counterexample_error_kind, C18_counterexample_result, "
+        "C18_counterexample_result_type, C18_general_false). Proved: sched_id / C18_model_is_creation_order (the engine with the re-check order as a parameter, instantiated at creation order, IS the "
+        "model all other theorems are about), C18_csets_stay_sorted, C18_partial / C18_partial_block (two schedules that agree on every reachable pending set give the same run), C18_no_constraints, "
+        "C18_single_constraint(_run) (schemas with at most one constraint are order-independent under every priority order), C18_fulfilled_noop / _swap. Tie: the scheduled engine is compared with "
+        "the implementation under EVERY priority order (all permutations for <= 4 constraints) through the TRANSFORGE_VERIF hook; oracle: equal outcomes across all priority orders and sampled "
+        "per-point random orders; an internal error under any order is reported (this found and fixed D22, D23, D25).",
+        technique="Lean 4 proof (schedule-parameterised copy of the unifier proved equal to the model at the identity schedule, invariant-based agreement of schedules, kernel-evaluated counterexamples) + model/implementation correspondence under imposed schedules",
+        ref="6/C18"),
  "C19": dict(text="On the model: C19_worklist / C19_worklist_mkCanon (the canon does not depend on the order the work list is processed), C19_foldl_add_perm / C19_emission_perm(_canonical) (the triple "
         "set does not depend on the order in which set-valued collections are emitted), C19_model_deterministic. Partial by nature: hash-seed and allocation-history dependence is runtime behaviour "
         "no model exhibits; it is exercised by generating every graph in fresh interpreters (PYTHONHASHSEED 0-3, random; after unrelated graphs; reversed listing) and comparing canonical digests.",
@@ -96,6 +104,23 @@ CLAIMED = {
         "against the model on generated languages; the printed string is tied to the token list by tokenizing it on both sides.",
         technique="Lean 4 proof (generalised work-list and stack-machine invariants, mutual structural induction) + model/implementation correspondence check",
         ref="6/C14"),
+ "C11": dict(text="On the query model: C11_eval_iff / C11_solve_sound / C11_solve_complete (the evaluator is a correct basic-graph-pattern semantics), C11_assign_reachable, C11_query "
+        "(for every task whose query can be generated - DAGs, several outputs, all flag combinations without unfold_tree - the generated query matches a workflow graph iff the task's steps can be "
+        "assigned to concept nodes as the property states: output / penultimate output, operator, canonical supertype, depends-links with the `:depends?` rule, inputs, membership pre-filter via C20), "
+        "C11_generates(_only) (generation fails exactly on cyclic tasks or types without URI), C11_drop_step / C11_subtask, C11_generalise, C11_absent_operator / C11_absent_type, C11_self, "
+        "C11_predicates (every predicate of the query is one the graph generator emits; names re-extracted from source). Partial: unfold_tree is covered by correspondence only; the up-closedness "
+        "of subtypeOf/containsType sets needed by C11_generalise is C07's theorem for plain canons and an assumption otherwise. Tie: SPARQL parsed back into clauses vs genQuery; verdicts of "
+        "rdflib, a plain matcher, the brute-force statement and the model's evaluator.",
+        technique="Lean 4 proof (soundness/completeness of the BGP evaluator, characterisation of assign_variables, clause-by-clause meaning) + model/implementation correspondence check",
+        ref="6/C11"),
+ "C12": dict(text="On the workflow model: C12_app_perm / C12_target_perm / C12_wfExpr_perm / C12_wfNode_perm and C12_order_partial (the listing order can only enter through source_types: given equal "
+        "recorded source types the whole graph is equal), C12_record_order (source_types is order-independent when the recorded types are totally ordered), counterexamples "
+        "C12_sourceTypes_order_visible / _semantic (known finding D26), C12_nodemap_functional / _total, C12_shared_once / _first (one node per resource, shared when consumed more than once), "
+        "C12_output_marked / C12_inputs_marked / C12_class, C12_inline_structure + C12_addExpr_shared_transparent (a tool's inputs denote the producers' whole expressions; the workflow graph is the "
+        "graph of the inlined expression with sharing), C12_no_passthrough_link / _flat, C09_workflow_graph. Partial: typing inside the tools is inherited from the inference model through "
+        "correspondence; the RDF (WorkflowGraph) front end is decided by the oracle (isomorphic to the in-memory form).",
+        technique="Lean 4 proof (permutation invariance, memo-table invariants, step-sequence invariants of add_workflow) + model/implementation correspondence check (graph isomorphism)",
+        ref="6/C12"),
  "C13": dict(text="Structure full on the model (annotation-free renderings): C13_parse_spine (the stack machine started on any stack consumes the rendering of a "
         "spine and leaves its denotation), C13_parse_render, C13_redundant_parens, C13_paren_prefix, C13_call_atoms, C13_render_tree / C13_call_eq_juxtaposition "
         "(f x y = (f x) y = f(x, y) = ((f)(x))(y)), C13_inputs, C13_source(_fresh), C13_tokens (tokenizer on any layout), C13_comments, C13_trivia, C13_text(_trivia). "
